@@ -72,6 +72,43 @@ def run(report, p):
     g = cfg_of(fl)
     report.assume("the session keeps one entry per (path, format) (C11 R11.m), so the first append for a pair wins")
 
+    # ------------------------------------------------------------------ R18.7 (evaluated first: independent of the shape of the merge loops)
+    r7 = report.rule(
+        "R18.7",
+        "the flattened manifest is a function of the history alone: between loading the history and committing the packing list, flatten asks the file system nothing about the "
+        "recorded paths (no isdir / isfile / exists / getsize / stat / listdir on a path that comes out of a record) - what is a folder is stated by the record's is_directory, "
+        "and a file that is gone from the tree still belongs to the summary",
+        3,
+    )
+    from sa.effects import classify as _classify
+
+    loader_q = "ascmhl.history.MHLHistory.load_from_path"
+    stop = {loader_q} | {q for q in p.funcs if q.endswith(".commit") or q.endswith("commit_session_for_collection") or q.endswith("create_collection_at_path")}
+    freach = p.reachable([fl.qual], stop=stop)
+    for q in sorted(freach):
+        f = p.funcs.get(q)
+        if f is None or q in stop or f.module.name.endswith("logger"):
+            continue
+        r7.instance(f, f.node, f"{q}: between load and commit")
+        for call, tg in p.calls[q]:
+            for t in tg:
+                if not t.startswith("ext:os."):
+                    continue
+                leaf = t.split(".")[-1]
+                if leaf not in ("isdir", "isfile", "exists", "lexists", "islink", "getsize", "getmtime", "stat", "lstat", "listdir", "scandir", "walk", "access"):
+                    continue
+                if not call.args:
+                    continue
+                recorded = False
+                for o in pr.origins(call.args[0], f):
+                    full = pr.resolve(o, depth=3)
+                    for st_ in subterms(full):
+                        if is_call(st_, "set_of_file_paths") or (st_[0] == "attr" and st_[2] in ("path", "previous_path") and "MediaHash" in str(st_[3] if len(st_) > 3 else "")) or (st_[0] == "attr" and st_[2] == "media_hashes"):
+                            recorded = True
+                if recorded:
+                    r7.check(False, f, call, f"flatten decides on `{norm(call)[:60]}`, i.e. on what the tree looks like NOW, for a recorded path: a recorded folder that was removed is summarised as a file record (its directory hashes written as <hash>), a recorded file that is now a folder is dropped", construct=f"flatten consults the file system ({leaf}) for a recorded path")
+    r7.check(True, fl, fl.node, "")
+
     # ------------------------------------------------------------------ R18.1
     r1 = report.rule(
         "R18.1",
@@ -313,6 +350,7 @@ def run(report, p):
             raise AnalysisError(f"{vf.loc(b)}: the new-files counter is raised for folders under a membership test whose set `{norm(member.comparators[0])[:60]}` is not understood (ancestor closure?)")
 
     # ---- rules shared with other properties (same mechanism, same rule, reported under every property it can break)
+    include_rules(report, p, 'c03', ['R3.11'], 'flatten and verify -pl log every record they handle')
     include_rules(report, p, 'c11', ['R11.m'], 'first-wins per (path, format) rests on the session keeping one entry per format')
     include_rules(report, p, 'c14', ['R14.1', 'R14.2'], 'flatten and verify -pl do not modify the source history: nothing they reach mutates the file system outside the destination')
     include_rules(report, p, 'c03', ['R3.9'], 'verify -pl and flatten are reached through dispatchers that must call their worker')
